@@ -58,7 +58,9 @@ DEVIATIONS = {
     "ChargeColumnDropped": ("DevCharge", ("ChargesPreserved",)),
     "LabelTruncated": ("DevLabel", ("LabelsPreserved",)),
     "ConformerOrderLost": ("DevOrder", ("CoordsPreserved", "ChargesPreserved")),
-    "NegativeZeroChargeToken": ("DevNegZero", ("TextFixedPoint",)),         # as found in the pinned tree (`c or 0.0`)
+    "NegativeZeroChargeToken": ("DevNegZero", ("TextFixedPoint",)),
+    # a reader that types bonds through a cache keyed on (atom pair, token): the second record over a pair stays Single
+    "RepeatedPairReadsSingle": ("DevRepeat", ("BondsPreserved", "TextFixedPoint")),         # as found in the pinned tree (`c or 0.0`)
     # a writer that remembers tokens per bond / atom object re-emits them after the object was edited
     "StaleBondTokenCache": ("DevStaleBond", ("BondsPreserved",)),
     "StaleAtomTokenCache": ("DevStaleAtom", ("AtomsPreserved",)),
@@ -69,6 +71,7 @@ DEVIATIONS = {
     "ReaderMemoFromHistory": ("DevMemo", ("TextFixedPoint", "RereadSame", "ReadStable")),
 }
 EDIT_DEVIATIONS = ("StaleBondTokenCache", "StaleAtomTokenCache", "EndpointsViaParentIndex")   # need the model with edits
+PAR_DEVIATIONS = ("RepeatedPairReadsSingle",)                                                  # need parallel bonds
 HIST_DEVIATIONS = ("ReaderMemoFromHistory",)                                                   # need History / Reread
 
 _VOC = None
@@ -111,7 +114,7 @@ MODELS = {
 }
 
 
-NO_EDITS = dict(MaxEdits=0, EditBonds="<- NoBonds", EditPhases="<- NoPhase", AliasPick="<- NoBonds", WithHistory="FALSE")
+NO_EDITS = dict(MaxPar=1, MaxEdits=0, EditBonds="<- NoBonds", EditPhases="<- NoPhase", AliasPick="<- NoBonds", WithHistory="FALSE")
 # history independence: unrelated API calls (History, once, in any phase) and a second read of the same text (Reread)
 MODELS["hist"] = dict(Kinds="<- K3", Names="<- Names1", AtomPool="<- PoolS", BondPool="<- BondsM", MaxAtoms=2, MaxBonds=1,
                       MaxConfs=2, WithHistory="TRUE")
@@ -119,7 +122,11 @@ MODELS["hist"] = dict(Kinds="<- K3", Names="<- Names1", AtomPool="<- PoolS", Bon
 # renamed) and the whole cycle again: <= 2 atoms from 3 recipes, <= 1 bond of 3 types, <= 2 conformers, 3 kinds, 2 names
 MODELS["edit"] = dict(Kinds="<- K3", Names="<- Names2", AtomPool="<- PoolT", BondPool="<- BondsM", MaxAtoms=2, MaxBonds=1,
                       MaxConfs=2, MaxEdits=1, EditBonds="<- EditB", EditPhases="<- AfterCycle", AliasPick="<- AliasTwo")
-MODELS["gen"].update(MaxEdits=3, EditBonds="<- BondTypes", EditPhases="<- AfterWrite", AliasPick="<- AliasModes")
+# parallel bonds: two atoms, every sequence of <= 2 bonds over the one pair (both directions, 8 types incl. ar/am/du/un/nc and
+# one mol2 cannot express), Molecule / Structure / ConformerEnsemble
+MODELS["par"] = dict(Kinds="<- K3", Names="<- Names1", AtomPool="<- PoolOne", BondPool="<- BondsP", MaxAtoms=2, MaxBonds=2,
+                     MaxConfs=2, MaxPar=2)
+MODELS["gen"].update(MaxPar=2, MaxEdits=3, EditBonds="<- BondTypes", EditPhases="<- AfterWrite", AliasPick="<- AliasModes")
 
 
 def mc_cfg(model, dev="DevNone"):
@@ -129,7 +136,7 @@ def mc_cfg(model, dev="DevNone"):
 
 def trace_cfg(clauses="<- AllClauses"):
     c = {**voc_consts(), "Kinds": "<- Empty", "Names": "<- Empty", "AtomPool": "<- Empty", "BondPool": "<- Empty",
-         "MaxAtoms": 0, "MaxBonds": 0, "MaxConfs": 0, "MaxEdits": 0, "EditBonds": "<- Empty", "EditPhases": "<- Empty", "AliasPick": "<- Empty", "WithHistory": "FALSE",
+         "MaxAtoms": 0, "MaxBonds": 0, "MaxConfs": 0, "MaxPar": 0, "MaxEdits": 0, "EditBonds": "<- Empty", "EditPhases": "<- Empty", "AliasPick": "<- Empty", "WithHistory": "FALSE",
          "XyzSeq": "<- NoSeq", "QSeq": "<- NoSeq", "Deviations": "<- Empty",
          "Clauses": clauses}
     return dict(spec="TraceSpec", constants=c)
@@ -137,9 +144,10 @@ def trace_cfg(clauses="<- AllClauses"):
 
 # --------------------------------------------------------------------------------------------- M: model checking
 def model_jobs(tier):
-    jobs = [("mc", "typing", "Mol2Text: every element x atom type x geometry triple through Write/Read/Write/Read", 2),
+    jobs = [("mc", "typing", "Mol2Text: every element x atom type x geometry triple through Write/Read/Write/Read", 3),
             ("mc", "small", "Mol2Text: all bounded structures (<=2 atoms, every bond type, <=2 conformers, 3 kinds)", 1),
             ("mc", "edit", "Mol2Text: full cycle, every single edit of the same object, full cycle again (<=2 atoms, <=1 bond)", 2)]
+    jobs.append(("mc", "par", "Mol2Text: parallel bonds - every sequence of <=2 bonds over one atom pair (both directions, 8 types)", 1))
     jobs.append(("mc", "hist", "Mol2Text: History (unrelated API calls) at any point + the same text read again (<=2 atoms, <=1 bond)", 1))
     if tier == "thorough":
         jobs += [("mc", "medium", "Mol2Text: all bounded structures (<=3 atoms, <=1 bond of every type, <=3 conformers)", 4),
@@ -158,7 +166,7 @@ def run_model_job(job):
                         require_actions=acts)
         return job, r
     dname, clauses = DEVIATIONS[name]
-    r = expect_violation("MCMol2Text", mc_cfg("edit" if name in EDIT_DEVIATIONS else "hist" if name in HIST_DEVIATIONS else "dev", dname), clauses, tag="c07dev",
+    r = expect_violation("MCMol2Text", mc_cfg("edit" if name in EDIT_DEVIATIONS else "hist" if name in HIST_DEVIATIONS else "par" if name in PAR_DEVIATIONS else "dev", dname), clauses, tag="c07dev",
                          workers=workers)
     if r.violated not in clauses:
         raise tlc.MachineryError(f"deviation {name}: TLC reported {r.violated}, documented clause(s) {clauses}")
@@ -315,6 +323,16 @@ def diagnose(traces, clauses):
 def clauses_at(diag, tid, l):
     """clauses that reject the trace at event l itself (a clause that only rejects a later event is not listed)"""
     return sorted(c for c, ll in diag.get(tid, []) if ll == l)
+
+
+def _repeats(bonds, same_type):
+    seen = set()
+    for b in bonds:
+        k = (frozenset((b["a"], b["b"])), b["bt"] if same_type else None)
+        if k in seen:
+            return True
+        seen.add(k)
+    return False
 
 
 def known_match(sig):
@@ -598,6 +616,8 @@ def run(tier, seed, replay_path):
                     "tokens_first_interpreted_on_pretyped_atoms_in_a_fresh_process": sum(
                         1 for t in htraces for e in t["ev"] if e["ev"] == "atype"),
                     "worker_processes": WORKERS + 1},
+           parallel_bonds={"objects_with_a_repeated_atom_pair": sum(1 for c in cases if c["src"] == "rec" and _repeats(c["rec"]["bonds"], False)),
+                           "of_which_same_type_twice": sum(1 for c in cases if c["src"] == "rec" and _repeats(c["rec"]["bonds"], True))},
            edits={"objects_edited_and_written_again": sum(1 for c in cases if c.get("edits")),
                   "operations": {k: sum(1 for c in cases for o in c.get("edits", []) if o["op"] == k)
                                  for k in ("bond", "atom", "move", "name", "alias")},
@@ -620,7 +640,8 @@ def run(tier, seed, replay_path):
         "history = calls of molli's public API on objects other than the one under test, made in the same process; state "
         "shared across processes (files, environment) is not varied",
         "scope: whitespace-free labels, one-line names without leading/trailing blanks, finite coordinates |x| < 1e5 A, "
-        "one bond per atom pair, ensembles with >= 1 conformer",
+        "at most two bonds over one atom pair (bond lists are sequences: a pair may repeat, in either direction), "
+        "ensembles with >= 1 conformer",
         "bond endpoints are compared as an unordered pair; an empty label and a bond type mol2 cannot express are free on "
         "read-back but must be stable in the second cycle",
         "the fixed point is taken over the tokens the property names (name, atom rows: label, x, y, z, type, charge; bond "
